@@ -48,6 +48,21 @@ NEEDS = {
     'C19-closed-snapshot-unlocked': 'closed-segment snapshot releases the segment mutex before hard-linking: needs a snapshot of an idle-closed segment racing with retention or a reopen',
     'C19-skip-removable-parts': 'file snapshot skips parts flagged removable: needs a snapshot while a merge has replaced parts that are still referenced',
     'C20-prepared-null-property-id': 'NULL guard of PROPERTY id = ? tests the template node: needs a NULL parameter at that position on the prepared path',
+    'C02-less-drops-version-tiebreak': 'row-path cursor order no longer breaks ties by version: needs one key in three unmerged parts with versions arriving low, high, mid, queried on the row pipeline',
+    'C05-stream-scan-close-before-workers': 'stream time scan releases its snapshot before the decode workers finish: needs the pinned snapshot superseded mid-query on the row pipeline',
+    'C05-trace-fence-released-early': 'trace ordered query releases the publication fence before pinning the core snapshots: needs a publication that hides a selected trace between the two phases',
+    'C06-create-next-is-newest': 'segment create caps the new segment at the newest instead of the closest successor: needs two later segments and a late write after an interval change',
+    'C06-select-skips-boundary-start': 'segment selection skips segments starting at the inclusive end of the range: needs a query ending exactly on a segment boundary',
+    'C07-forced-cleanup-skips-pinned': 'forced cleanup prefers the oldest unpinned segment: needs >= 3 segments and a holder of the oldest one',
+    'C07-retention-remove-by-position': 'retention unlinks expired segments by stale positions: needs two or more segments expiring in one run',
+    'C10-node-limit-zero-guard': 'distributed plan pushes limit 0 (= keep the client limit) to the nodes: needs group-by with more groups per node than limit+offset',
+    'C10-prefix-groupby-streaming': 'streaming group-by chosen for a strict prefix of the entity: needs a two-tag entity and equal prefixes that are not adjacent',
+    'C12-escape-prefix-copy': 'entity escaping copies a prefix in bulk up to the first delimiter: needs an escape byte before the first delimiter in one value',
+    'C12-minint-abs-guard': 'Int64ToBytes clamps the magnitude of MinInt64: needs MinInt64 itself',
+    'C14-collect-metrics-unlocked': 'metrics collection releases the segment lock before collecting: needs the idle reclaimer or a delete while a collection runs on a dormant segment',
+    'C14-select-partial-defer-leak': 'partial-failure cleanup of SelectSegments runs on a nil slice: needs a reopen that fails for an older segment after a newer one was pinned',
+    'C16-remove-unknown-binary-search': 'RemoveNode by binary search without equality test: needs the removal of an unknown or already removed node',
+    'C16-sort-uint32-wrap': 'shard tie-break by uint32 subtraction: needs more than 12 shards in total and a group sorting before a known one',
     'C20-prepared-top-uint32': 'SELECT TOP ? bound is uint32 on the prepared path: needs a value in (2^31-1, 2^32-1]',
 }
 
